@@ -181,7 +181,7 @@ pub fn run(ctx: &Ctx) {
     ctx.judge_all(cases, Via::Cli, None);
     // (d) hostile random programs.
     let cfg = gen::GenCfg::hostile();
-    let n = ctx.n(25_000, 2_000_000);
+    let n = ctx.n(50_000, 2_000_000);
     let via = if ctx.tier == Tier::Quick { Via::Cli } else { Via::Fast };
     ctx.proptest_tapes("hostile", n, 700, via, None, |t| {
         let prog = gen::gen_prog(t, &cfg);
